@@ -12,6 +12,7 @@ Infrastructure trouble -> exit 2, never a VIOLATION line.
 from __future__ import annotations
 import hashlib
 import json
+import re
 import os
 import random
 import sys
@@ -234,7 +235,7 @@ class Ctx:
             "trusted_base": TRUSTED_BASE,
             "theorems": self.obligations,
             "axioms_used": self.extra.get("axioms", []),
-            "table_obligations": self.table_obligations,
+            "table_obligations": sum(1 for t in self.obligations if re.match(r"T\d\d\.", t)),
             "evaluations": self.evaluations,
             "distinct_nontrivial": len(self.distinct),
             "trivial": self.trivial,
@@ -256,8 +257,9 @@ class Ctx:
         EVIDENCE.mkdir(exist_ok=True)
         (EVIDENCE / f"{self.prop}.json").write_text(json.dumps(ev, indent=1, default=str))
         status = "VIOLATED" if violations else "ok"
+        ntab = sum(1 for t in self.obligations if re.match(r"T\d\d\.", t))
         print(f"[{self.prop}] {status}: {len(self.discharged)}/{len(self.obligations)} theorems"
-              f" + {self.table_obligations} table obligations, {self.evaluations} cases"
+              f" (of which {ntab} table obligations over the regenerated facts), {self.evaluations} cases"
               f" ({len(self.distinct)} distinct non-trivial), {len(self.disagreements)} disagreements,"
               f" {len(self.failures)} oracle failures ({len(known_hit)} known), {wall:.1f}s")
         return 1 if violations else 0
